@@ -24,7 +24,7 @@ func registry() *kernel.Registry {
 		MinProbes:   map[string][]string{},
 		UnstableSUT: map[string]int{"C14": 8},
 		Weights: map[string]map[string]int{
-			"C14": {"xr": 8}, "C01": {"xr": 5}, "C02": {"xr": 5}, "C07": {"tm": 4}, "C13": {"xr": 3}, "C19": {"xr": 2}, "C17": {"ag": 3},
+			"C14": {"xr": 8}, "C01": {"xr": 5}, "C02": {"xr": 5}, "C05": {"xr": 5}, "C07": {"tm": 4}, "C13": {"xr": 3}, "C19": {"xr": 2}, "C17": {"ag": 3},
 		},
 	}
 	reg.Components["xr"] = [2][]string{
